@@ -90,7 +90,10 @@ class Prod(fm.TimeComponent):
             # fault: the component first hands in the array it published last (refused: shares memory with retained data), handles the
             # error and publishes a fresh array - the refused attempt must leave nothing behind
             prev = getattr(self, "_prev", None)
-            if isinstance(prev, np.ndarray):
+            held = self.outputs["o"].data
+            # (the fault is injected only where it is one: when the newest retained entry is still in memory; once it has been spilled the same
+            # call would be a legal second publication)
+            if isinstance(prev, np.ndarray) and held and not isinstance(held[-1][1], str):
                 try:
                     self.outputs["o"].push_data(prev, self.time)
                     raise AliasAccepted()  # the retained entry had been spilled already: nothing is shared, the run has left the fault's domain
